@@ -86,6 +86,21 @@ pub fn dispatch(op: &str, a: &[Term]) -> Option<Term> {
             let v = json(&out);
             tl(v[0]["factors"].as_array().unwrap().iter().map(|f| tl(vec![jpoly(&f["factor_vec"]), jint(&f["e"])])).collect())
         }
+        // several primes in one configuration: [[factors for p1] [factors for p2] ...]
+        "cli_factor_mod_p_multi" => {
+            let ps: Vec<String> = a[1].ints().iter().map(|p| format!("\"{p}\"")).collect();
+            let (ok, out) = run_main(&format!("input:\n  polynomial_and_primes:\n    polynomial: {}\n    primes: [{}]\nto_find: [factorization-mod-p]\n", poly_json(&a[0]), ps.join(", ")));
+            if !ok { return Some(crashed()); }
+            let v = json(&out);
+            tl(v.as_array().unwrap().iter().map(|e| tl(vec![jint(&e["modulus"]), tl(e["factors"].as_array().unwrap().iter().map(|f| tl(vec![jpoly(&f["factor_vec"]), jint(&f["e"])])).collect())])).collect())
+        }
+        "cli_prime_decomp_multi" => {
+            let ps: Vec<String> = a[1].ints().iter().map(|p| format!("\"{p}\"")).collect();
+            let (ok, out) = run_main(&format!("input:\n  polynomial_and_primes:\n    polynomial: {}\n    primes: [{}]\nto_find: [prime-decomposition]\n", poly_json(&a[0]), ps.join(", ")));
+            if !ok { return Some(crashed()); }
+            let v = json(&out);
+            tl(v.as_array().unwrap().iter().map(|e| tl(vec![jint(&e["modulus"]), tl(e["factors"].as_array().unwrap().iter().map(|f| tl(vec![jint(&f["norm"]), jint(&f["e"])])).collect())])).collect())
+        }
         "cli_prime_decomp" => {
             let (ok, out) = run_main(&format!("input:\n  polynomial_and_primes:\n    polynomial: {}\n    primes: [\"{}\"]\nto_find: [prime-decomposition]\n", poly_json(&a[0]), a[1].int()));
             if !ok { return Some(crashed()); }
